@@ -42,6 +42,25 @@ CHECKS["C01"] = dict(
     ref="DESIGN.md section 4, C01",
 )
 
+CHECKS["C02"] = dict(
+    category="exploration",
+    technique="bounded-exhaustive program enumeration with a differential oracle (optimize off vs on), incl. a complete store->load x consumer-operand context grid",
+    text="Every program of the enumerated families, and every cell of the store->load context grid (variable scope x type x consumer "
+         "operand position x chain length x placement) and of the constant-cast site grid, is compiled at both settings; decisions, "
+         "return values and all globals must agree on every input. The space is enumerated completely.",
+    note="Trusted: the unoptimised compilation as oracle; VM determinism. Both sides failing is left to C05.",
+    ref="DESIGN.md section 4, C02",
+)
+CHECKS["C14"] = dict(
+    category="exploration",
+    technique="bounded-exhaustive program enumeration; per function an exhaustive all-paths must-defined fixpoint over the CFG plus structural rules",
+    text="Every function of every module compiled from the enumerated families, at both optimisation levels, is checked against the "
+         "structural rules and a greatest-fixpoint must-defined analysis over its instruction-level CFG (all paths, loops included).",
+    note="Trusted: nslmc/irwf.py and its model of the VM's control transfer (block layout order, fall-through, branch, return). "
+         "References compared by number, as the VM does.",
+    ref="DESIGN.md section 4, C14",
+)
+
 PENDING = {}
 
 
